@@ -230,6 +230,13 @@ bool File::copy(const String& src, const String& destination, bool failIfExists)
     int fd = ::open(src, O_RDONLY);
     if(fd == -1)
       return false;
+    struct stat srcStat;
+    if(fstat(fd, &srcStat) == 0 && S_ISDIR(srcStat.st_mode))
+    {
+      ::close(fd);
+      errno = EISDIR;
+      return false;
+    }
     off64_t size = lseek(fd, 0, SEEK_END);
     if(size < 0)
       return false;
